@@ -658,6 +658,30 @@ def one_line(ck, fn):
             okl = bool(starts and okm and pat == "\x1b\\[[0-9;]*m")
             detail = "starts from formattedMessage():%s, single remove():%s, pattern %r" % (starts, okm, pat)
         ck.ob("C19-O3", sitestr(lf), okl, "file text = console text minus ANSI SGR sequences (ESC [ digits/; m)" if okl else "stripping formatter: %s" % detail, key="oneline|strip")
+        # ... and what it strips is everything the pretty formatter can emit: every escape sequence in the string literals of PrettyFormatter's code is one the
+        # expression removes (an erase-line or cursor sequence added to the console output would stay in the file)
+        if okl:
+            import re as _re
+            pf = [f_ for f_ in F.fns.values() if f_.body is not None and strip_tmpl(f_.cls or "").endswith("PrettyFormatter")]
+            ids_ = F.reachable_from(pf, virtual=False) if pf else set()
+            left, n_lit = [], 0
+            for i_ in sorted(ids_ | {f_.id for f_ in pf}):
+                f_ = F.fns.get(i_)
+                if f_ is None or f_.body is None or "/src/qtlogger/" not in (f_.file or ""):
+                    continue
+                for x in f_.all_nodes():
+                    t_ = const_str(x) if x.get("k") in ("str", "qstr", "construct", "call") else None
+                    if t_ is None and x.get("k") in ("char", "int") and x.get("v") == 27:
+                        t_ = "\x1b"      # an escape character put together piece by piece is not followed
+                    if t_ and "\x1b" in t_:
+                        n_lit += 1
+                        rest = _re.sub("\x1b\\[[0-9;]*m", "", t_)
+                        if "\x1b" in rest:
+                            left.append((sitestr(f_, x), t_))
+            if pf:
+                ck.ob("C19-O3", left[0][0] if left else sitestr(pf[0]), not left, "%d string literals with escape sequences in PrettyFormatter's code: all of them are SGR sequences, which the file output strips" % n_lit if not left else
+                      "the pretty formatter emits %r, which is not an SGR sequence: the expression that makes the file text out of the console text leaves it in the file" % left[0][1], key="oneline|strip-covers-emitted")
+
     # async
     mv = [n for n in fn.calls() if name_is(strip_tmpl(n.get("callee") or ""), "QtLogger::OwnThreadHandler::moveToOwnThread")]
     if ck.config != "nothread":
